@@ -526,6 +526,9 @@ func runCase(w *tr.Writer, seed uint64, idx int, focus string) {
 			w.Fail(e.line.Name, e.line.Args[0], strings.Join(e.line.Args[2:], " "))
 		}
 	}
+	for _, k := range []string{"lifecycle", "fd", "inbound", "outbound", "udp", "fault"} {
+		w.Obs(tr.L("chk", k, "1"))
+	}
 	tags := map[string]bool{}
 	for _, e := range rec.log {
 		if e.tag == "op" && e.line.Name == "r" && len(e.line.Args) > 2 && e.line.Args[len(e.line.Args)-1] == "eagain" {
